@@ -190,6 +190,40 @@ static void crc_all(bool thorough)
                     if (main_poly || thorough) { messages(T, w, msb != 0, poly, full, 2, inits, n, nt); }
                     messages(T, w, msb != 0, poly, small, main_poly ? (thorough ? 6 : 5) : 3, inits, n, nt);
                 }
+                // 3b. long messages: every length 6..40 (any unrolling by 2, 4, 8, 16 or 32 bytes meets each of its remainders,
+                //     including "remainder = a whole block"), two byte patterns, every split point
+                {
+                    unsigned char lm[2][40];
+                    for (int i = 0; i < 40; ++i) { lm[0][i] = (unsigned char)(i * 37 + 11); lm[1][i] = 0xFF; }
+                    for (int pat = 0; pat < 2; ++pat)
+                    {
+                        for (int len = 6; len <= 40; ++len)
+                        {
+                            for (uint64_t v0 : std::vector<uint64_t>{0, maskw(w)})
+                            {
+                                uint64_t want = msb ? ref_m(w, poly, lm[pat], (size_t)len, v0) : ref_l(w, poly, lm[pat], (size_t)len, v0);
+                                uint64_t got = crc(T, w, msb != 0, lm[pat], (size_t)len, v0);
+                                ++n; ++nt;
+                                if (got != want)
+                                {
+                                    R.viol(nm(w, msb != 0) + "|definition|long-message", nm(w, msb != 0) + " with polynomial " + grid::hex(poly) + " on a " + std::to_string(len) + "-byte message, initial value " + grid::hex(v0) + ": " + grid::hex(got) + " is not the remainder of bit-by-bit division " + grid::hex(want),
+                                           "{\"width\":" + std::to_string(w) + ",\"poly\":" + grid::hex(poly) + ",\"len\":" + std::to_string(len) + ",\"init\":" + grid::hex(v0) + "}");
+                                    continue;
+                                }
+                                for (int sp = 0; sp <= len; ++sp)
+                                {
+                                    uint64_t piece = crc(T, w, msb != 0, lm[pat] + sp, (size_t)(len - sp), crc(T, w, msb != 0, lm[pat], (size_t)sp, v0));
+                                    ++n;
+                                    if (piece != got)
+                                    {
+                                        R.viol(nm(w, msb != 0) + "|split|long-message", nm(w, msb != 0) + ": feeding a " + std::to_string(len) + "-byte message in pieces split at " + std::to_string(sp) + " differs from feeding it at once",
+                                               "{\"width\":" + std::to_string(w) + ",\"poly\":" + grid::hex(poly) + ",\"len\":" + std::to_string(len) + ",\"split\":" + std::to_string(sp) + "}");
+                                    }
+                                }
+                            }
+                        }
+                    }
+                }
                 // 4. the two bit orders are related by bit reflection of polynomial, data and value
                 if (msb)
                 {
@@ -215,7 +249,7 @@ static void crc_all(bool thorough)
             }
         }
     }
-    R.part("CRC 8/16/32/64, both bit orders: table entries, single update steps, all messages of length <=2 over all bytes and <=5 (6 thorough) over {00,01,30,7F,80,FF} with every split point and 3 initial values, reflection relation; polynomials: all 256 8-bit, published + single-bit + all-ones + 0 + alternating + repeated-byte for wider", n, nt);
+    R.part("CRC 8/16/32/64, both bit orders: table entries, single update steps, all messages of length <=2 over all bytes and <=5 (6 thorough) over {00,01,30,7F,80,FF} with every split point and 3 initial values, every length 6..40 of two byte patterns with every split point, reflection relation; polynomials: all 256 8-bit, published + single-bit + all-ones + 0 + alternating + repeated-byte for wider", n, nt);
     R.sample("{\"fn\":\"a_crc32l\",\"poly\":\"0x04C11DB7\",\"message\":\"123456789\",\"init\":\"0xFFFFFFFF\",\"crc^0xFFFFFFFF\":" + [] { a_u32 t[256]; a_crc32l_init(t, 0x04C11DB7); return grid::hex(a_crc32l(t, "123456789", 9, 0xFFFFFFFFu) ^ 0xFFFFFFFFu); }() + "}");
 }
 
